@@ -28,6 +28,7 @@ EXPLANATION = (
     "order. (BAL) every returned template has balanced literal braces, except returns that push on / pop from the "
     "pending-radical stack, pushes are non-None and every pending entry is closed at the end; the symbol table has "
     "balanced values. (REC/DET) recursion is structural on direct children; no set iteration, no module-level state is written."
+    ' (LIN j, k) a module-level template helper is linear in its parameters on each of its return paths; an element is dropped with its subtree before the dispatch only when it is absent, not an element, or named in a folded set that contains no element that can hold a run. The lone-bracket exemption of the malformed radical requires a membership test against a collection (a test against a string is a substring test).'
 )
 NOT_DECIDED = ["the documented LaTeX form of each element as a value (which command, which delimiter)", "recursion depth limits of the interpreter for pathologically deep trees"]
 TRUSTED = ["ElementTree: Element.get(k) / .text / .find may return None; iteration and findall yield direct children in document order; trees are finite and acyclic",
